@@ -96,6 +96,11 @@ CHECKS = {
             "Sampled schedules under oversubscription on all five back-ends; any shared mutable FFT state or leftover scratch content changes output bytes, which the differential sees regardless of the assembly.",
             "Interleavings are sampled, not controlled; TSan sees only the C/C++ parts. A mismatch is reported even if a replay passes (it cannot occur without shared mutable state).",
             "DESIGN.md §3 C06"),
+    "C16": ("exploration", "E1",
+            "rapidcheck state-machine lifecycles (configuration matrix x generated API call sequences with a liveness model) under AddressSanitizer/LeakSanitizer with a per-lifecycle leak check in a forked child, a two-fill-byte differential of all outputs, and valgrind memcheck for the assembly back-ends",
+            "Generated configurations incl. n<8, n>N, k=2 and extreme gadget/key-switch layouts, with lifecycles covering encrypt, gates, bootstraps, export/import, thread exit and deletion orders, on all five back-ends.",
+            "MSan is unusable here; uninitialised reads are covered by valgrind (bounded) and the fill-byte differential. LeakSanitizer treats objects kept by the library's global collector as reachable (not leaks).",
+            "DESIGN.md §3 C16"),
 }
 
 ALL = ["C%02d" % k for k in range(1, 21)]
